@@ -15,6 +15,7 @@ import random
 import re
 
 from .. import common as C
+from ..gen import posmodel as PM
 from ..gen import vtext as V
 
 PID = "C12"
@@ -30,7 +31,9 @@ MANIFEST = {
             "the run, start with // or /*, and end_line/end_column denote the position just past the token. The model is tied "
             "to veryl_parser by correspondence on generated comment runs through a cfg(veryl_verif) hook; lexer-assigned "
             "positions of ordinary tokens (parol/scnr2, not modelled) and the whole token+comment stream are checked directly "
-            "against the raw input on generated texts and all repository testcases under random re-layout.",
+            "against the raw input on generated texts and all repository testcases under random re-layout. Also proved: the "
+            "lexer's line/column rule (model of scnr2 CharIterWithPosition::next) is right when the iterator only advances; its "
+            "save/restore defect is a recorded finding.",
     "note": "Trusted: Coq kernel; hand-written model coq/Pos/PosModel.v (chars().count() = number of non-continuation bytes, "
             "valid for Rust str; u32 overflow not modelled; the regex is modelled as a scanner, agreement checked by "
             "correspondence incl. non-lexer-shaped runs); vh-pos harness; python generator/oracle; lexer positions of ordinary "
@@ -371,6 +374,7 @@ def run(tier, seed, replay):
         "model: coq/Pos/PosModel.v transcribes split_comment_token / COMMENT_REGEX (as a scanner) / end_line / end_column of "
         "crates/parser/src/veryl_token.rs; chars().count() = non-continuation bytes; u32 as unbounded N",
         "vh-pos harness (harness/pos): modes T (Parser::parse + walker stream) and S (hook verif_split_comment_token)",
+        "OCaml extraction of the model (ExtrOcamlBasic only) + driver vp/gen/posmodel.py (trusted glue; cross-checked against vm_compute on a sample every run)",
         "python reference for line / character column (vp/props/c12.py line_col) and the lexer derived from veryl.par (vp/gen/vtext.py)",
         "lexer-assigned positions of ordinary tokens (parol_runtime / scnr2) are outside the model: validated by the oracle only"])
     res.assumptions = [
@@ -408,7 +412,8 @@ def run(tier, seed, replay):
     quick = tier == "quick"
 
     # ---- stream S: comment runs, implementation vs model vs oracle
-    scases = gen_split_cases(rng, 1000 if quick else 30000)
+    scases = gen_split_cases(rng, 4000 if quick else 60000)
+    n_generated = len(scases)
     # boundary shapes, always present
     for run_ in ["/**/", "/***/", "//\n", "// é\r\n/* b */", "/* é */ /* b */\n", "/* a\n é*/ /* b */ // c\n", "//a\r//b\n",
                  "/* 😀 */\t/* x */", "/*/ */", "/* * / */ ", "// x", "/* unterminated", "//\r\n\r\n//\r\n", "/* a */\n\n\n  /* b */",
@@ -420,8 +425,22 @@ def run(tier, seed, replay):
     simpl = [parse_split(o) for o in C.run_lines(binary, [split_wire(c) for c in scases])]
     res.coverage.setdefault('timing_s', {})['split_impl'] = round(time.time() - t_, 1)
     t_ = time.time()
-    smodel = model_split(scases)
-    res.coverage['timing_s']['split_model_coq'] = round(time.time() - t_, 1)
+    # the model is evaluated by its OCaml extraction on every case and, for the boundary shapes,
+    # also inside Coq (vm_compute); both evaluations must agree
+    okm, mbin, mlog = PM.build()
+    res.obligation("extracted model builds (OCaml, ExtrOcamlBasic only)", okm, mlog[-400:])
+    if not okm:
+        res.violation("model-build", "the extracted position model no longer builds: " + mlog[-300:],
+                      {"no_longer_checks": "correspondence split_comment_token = split_comments", "log": mlog[-2000:]}, no_input=True)
+        return res.finish()
+    smodel = PM.split_eval(mbin, [(line_col(c[0], len(c[0])) + (len(c[0]), c[1])) for c in scases])
+    res.coverage['timing_s']['split_model_ocaml'] = round(time.time() - t_, 1)
+    t_ = time.time()
+    nb = len(scases) - n_generated
+    coq_sample = model_split(scases[n_generated:])
+    res.obligation("extracted model = vm_compute of the model inside Coq on %d boundary runs" % nb,
+                   coq_sample == smodel[n_generated:])
+    res.coverage['timing_s']['split_model_coq_sample'] = round(time.time() - t_, 1)
     s_mism = []
     s_fail = []
     distinct = set()
